@@ -65,61 +65,64 @@ def run(ctx, chk):
             return False
         return True
 
-    R3 = chk.rule("R-WORD", "word(), abstractly interpreted over limit in {none, zero, positive} x remaining bytes in {0, 1..3, >= 4}: limit "
-                  "exhausted -> Err(LimitReached(offset)), nothing consumed; fewer than four bytes left -> Err(StreamExpected(offset)), offset "
-                  "untouched; otherwise the word is the four bytes at the old offset (little endian), offset += 4, a positive limit is "
-                  "charged exactly one; no path can slice or advance beyond the buffer")
-    from . import decoderx
+    R3 = chk.rule("R-WORD", "word(), evaluated in every state (0..13 bytes left x limit none / 0..4 / 2^62 / 2^64-1): limit exhausted -> "
+                  "Err(LimitReached(offset)), nothing consumed; fewer than four bytes left -> Err(StreamExpected(offset)), offset untouched; "
+                  "otherwise the word is the four bytes at the old offset (little endian), offset += 4, a set limit is charged exactly one; "
+                  "no path can slice or advance beyond the buffer")
     W = raw.where("word", "Decoder")
-    O, O4 = (1, 0, 0), (1, 0, 4)
-    for lim in decoderx.LIMITS:
-        for rem in decoderx.REMS:
-            try:
-                r = decoderx.evaluate(ctx, "word", lim, rem)
-            except Anchor as ex:
-                chk.bad(R3, "word(limit=%s, bytes left=%s)" % (lim, rem), "word() is not in an analysable shape: %s" % ex, W, key="C11:word-shape")
-                continue
-            inst = "word(limit=%s, bytes left=%s)" % (lim, rem)
-            if lim == "Zero":
-                good = r["outcome"] == "err" and r.get("error") == "LimitReached" and r.get("payload") == O and r["advance"] == (0, 0, 0) and r["limit_delta"] == 0
-                want = "Err(LimitReached(offset)), nothing consumed"
-            elif rem != "R4":
-                good = r["outcome"] == "err" and r.get("error") == "StreamExpected" and r.get("payload") == O and r["advance"] == (0, 0, 0)
-                want = "Err(StreamExpected(offset)), offset unchanged"
-            else:
-                good = r["outcome"] == "ok" and r.get("slice") == (O, O4) and r["advance"] == (0, 0, 4) and r["limit_delta"] == (-1 if lim == "Pos" else 0)
-                want = "Ok(le word of bytes[offset..offset+4]), offset += 4, limit %s" % ("charged one" if lim == "Pos" else "untouched")
-            got = {k: v for k, v in r.items() if k != "value"}
-            chk.check(R3, good, inst, "word() yields %s, expected %s" % (got, want), W, key="C11:word:%s:%s" % (lim, rem), sample=got if rem == "R4" else None)
+    rmax, lmax = sx.scope(ctx)
+    LIMS = [None] + list(range(0, lmax + 1)) + sx.HUGE
+    nword = 0
+    try:
+        for r in range(0, rmax + 1):
+            for lim in LIMS:
+                inst = "word(bytes left=%d, limit=%s)" % (r, lim)
+                out = sx.evaluate(ctx, "word", r, lim)
+                nword += 1
+                if not adv("word", out, inst):
+                    continue
+                ref, roff, rlim = sx.word_seq(r, lim, 1)
+                v = out["result"]
+                if ref[0] == "err":
+                    good = (isinstance(v, tuple) and v[0] == "err" and isinstance(v[1], tuple) and v[1][0] == "enum" and v[1][1].split("::")[-1] == ref[1]
+                            and v[1][2] == [ref[2]] and out["offset"] == roff and (rlim is None or out["limit"] == rlim))
+                else:
+                    good = v == ("ok", ("le", ref[1][0])) and out["offset"] == roff and out["limit"] == rlim
+                chk.check(R3, good, inst, "word() yields %s; expected %s, offset %s, limit %s" % (
+                    sx.describe(out), ref if ref[0] == "err" else "Ok(le word of bytes %s)" % [b[1] for b in ref[1][0]], roff, rlim), W,
+                    key="C11:word:%s" % (ref[1] if ref[0] == "err" else "ok"), sample=sx.describe(out) if (r, lim) == (8, 2) else None)
+    except Anchor as ex:
+        chk.bad(R3, "word()", "word() is not in an analysable shape: %s" % ex, W, key="C11:word-shape")
+    chk.floor(R3, "word() states", nword, 100)
 
     R4 = chk.rule("R-LIMIT", "set_limit(n) stores Some(n), clear_limit() stores None, has_limit() <=> a limit is set, limit_reached() <=> the "
-                  "limit is Some(0) (abstractly interpreted); string() scans at most limit*4 bytes and never beyond the buffer, reports "
-                  "LimitReached only when the limit (not the stream) ended the scan, and charges the limit with the words consumed")
-    for lim in decoderx.LIMITS:
-        for name, want in (("has_limit", lim != "None"), ("limit_reached", lim == "Zero")):
+                  "limit is Some(0) (evaluated in every limit state, offset and buffer untouched); string() scans at most limit*4 bytes and "
+                  "never beyond the buffer, reports LimitReached only when the limit (not the stream) ended the scan, and charges the limit "
+                  "with the words consumed")
+    for lim in LIMS:
+        for name, want in (("has_limit", lim is not None), ("limit_reached", lim == 0)):
             try:
-                r = decoderx.evaluate(ctx, name, lim, "R4")
-                good = r["value"] is want and r["advance"] == (0, 0, 0) and r["limit"] == lim and r["limit_delta"] == 0
-                what = "%s() with limit %s yields %r" % (name, lim, r["value"])
-            except Anchor as ex:
-                good, what = False, "not analysable: %s" % ex
-            chk.check(R4, good, "%s(limit=%s)" % (name, lim), what, raw.where(name, "Decoder"))
-        for name, want in (("clear_limit", "None"),):
-            try:
-                r = decoderx.evaluate(ctx, name, lim, "R4")
-                good = r["limit"] == want and r["advance"] == (0, 0, 0)
-                what = "%s() leaves the limit %s" % (name, r["limit"])
+                out = sx.evaluate(ctx, name, 8, lim)
+                good = out.get("result") is want and out["offset"] == sx.PRE and out["limit"] == lim
+                what = "%s() with limit %s yields %r (offset %s, limit %s)" % (name, lim, out.get("result", out.get("panic")), out["offset"], out["limit"])
             except Anchor as ex:
                 good, what = False, "not analysable: %s" % ex
             chk.check(R4, good, "%s(limit=%s)" % (name, lim), what, raw.where(name, "Decoder"))
         try:
-            r = decoderx.evaluate(ctx, "set_limit", lim, "R4")
-            arg = dm["set_limit"]["fn"]["sig"]["params"][1][0]
-            good = r["limit"] == ("Some", arg) and r["advance"] == (0, 0, 0)
-            what = "set_limit leaves the limit %s" % (r["limit"],)
+            out = sx.evaluate(ctx, "clear_limit", 8, lim)
+            good = "panic" not in out and out["limit"] is None and out["offset"] == sx.PRE
+            what = "clear_limit() leaves the limit %s" % (out["limit"],)
         except Anchor as ex:
             good, what = False, "not analysable: %s" % ex
-        chk.check(R4, good, "set_limit(limit=%s)" % lim, what, raw.where("set_limit", "Decoder"))
+        chk.check(R4, good, "clear_limit(limit=%s)" % lim, what, raw.where("clear_limit", "Decoder"))
+        for n_ in (0, 7):
+            try:
+                out = sx.evaluate(ctx, "set_limit", 8, lim, args=[n_])
+                good = "panic" not in out and out["limit"] == n_ and out["offset"] == sx.PRE
+                what = "set_limit(%d) leaves the limit %s" % (n_, out["limit"])
+            except Anchor as ex:
+                good, what = False, "not analysable: %s" % ex
+            chk.check(R4, good, "set_limit(%d; limit=%s)" % (n_, lim), what, raw.where("set_limit", "Decoder"))
     WS = raw.where("string", "Decoder")
     nstr = 0
     shown = 0
